@@ -30,3 +30,24 @@ def unzigzag_term(t, width=64):
     """value of a zig-zag encoded term, sign-extended to `width` bits"""
     z = z3.ZeroExt(width - t.size(), t)
     return z3.LShR(z, 1) ^ (-(z & 1))
+
+
+def pbf_way(wid, refs):
+    """Way message: id, packed sint64 delta-coded refs"""
+    out = f_varint(1, wid); deltas = []; prev = 0
+    for r in refs: deltas += varint(zigzag(r - prev)); prev = r
+    return out + f_bytes(8, deltas)
+
+
+def pbf_relation(rid, members):
+    """Relation message: id, roles_sid (string 0), memids (delta), types"""
+    out = f_varint(1, rid); roles = []; ids = []; types = []; prev = 0
+    for (t, ref) in members: roles += varint(0); ids += varint(zigzag(ref - prev)); prev = ref; types += varint(t)
+    return out + f_bytes(8, roles) + f_bytes(9, ids) + f_bytes(10, types)
+
+
+def pbf_dense(ids, extra=()):
+    d = []; prev = 0
+    for i in ids: d += varint(zigzag(i - prev)); prev = i
+    z = sum((varint(zigzag(0)) for _ in ids), [])
+    return f_bytes(1, d) + list(extra) + f_bytes(8, z) + f_bytes(9, z)
